@@ -104,6 +104,31 @@ Theorem C19_static_new_ok : forall s g names fs qs s' w,
 Proof. exact static_new_stored_ok. Qed.
 Print Assumptions C19_static_new_ok.
 
+(** a mount whose own identity changes after the composefs was built (host directory replaced, file version moved on):
+    the composefs root keeps no table, so the listing made after the change agrees with Walk and GetAttr made after it
+    (the clause holds for the directory AS IT IS NOW, [dir_set_base n q' d]) ... *)
+Theorem C19_qids_mount_changed : forall s0 d n q' off cnt es s1 s2 e qw fw s3 s4 qg s5,
+  NoDup (map fst (d_ents d)) -> d_stored d = None ->
+  dir_readdir s0 (dir_set_base n q' d) off cnt = (es, s1) -> In e es ->
+  extends s1 s2 -> dir_walk s2 (dir_set_base n q' d) (d_name e) = Some (qw, fw, s3) ->
+  extends s3 s4 -> getattr s4 fw = (qg, s5) ->
+  qw = d_qid e /\ qg = d_qid e /\ d_type e = q_type (d_qid e) /\ s5 = s4.
+Proof. exact compose_live_after_change. Qed.
+Print Assumptions C19_qids_mount_changed.
+
+(** ... whereas a root answering Readdir from QIDs remembered at mount time would not (witness: one version bump) *)
+Theorem C19_mount_cache_refuted :
+  let d := mkDir [("log"%string, mkFile (mkQid 0 0 0) [(0, 0)%nat]); ("other"%string, mkFile (mkQid 0 0 0) [(0, 1)%nat])] None [] in
+  let '(dc, s0) := dir_cache_at_mount m_init d in
+  let q' := mkQid 0 1 0 in
+  let '(es, s1) := dir_readdir s0 (dir_set_base "log" q' dc) 0 10 in
+  match dir_walk s1 (dir_set_base "log" q' d) "log" with
+  | Some (qw, _, _) => map d_qid (filter (fun e => String.eqb (d_name e) "log") es) = [qw]
+  | None => False
+  end -> False.
+Proof. exact mount_cache_refuted. Qed.
+Print Assumptions C19_mount_cache_refuted.
+
 (** every history of QIDFor calls, of any length, only extends the tables (so it may stand between the calls above) *)
 Theorem C19_histories_extend : forall h s, extends s (run_history s h).
 Proof. exact run_history_extends. Qed.
